@@ -70,6 +70,22 @@ theorem converter_overrides_pinned :
        ("UUIDConverter", ["BaseConverter"], ["to_python", "to_url"], ["regex"])] := by
   decide +kernel
 
+/-- **match_prelude_pinned.** What `MapAdapter.match` does to its arguments before the matcher runs, in the current
+source: `update()`, defaults for path_info / query_args / websocket, `method.upper()`, the domain part (bound
+subdomain unless host matching), and `path_part = "/" + path_info.lstrip("/")` — nothing else touches the path
+(no case folding, no Unicode normalisation: the model's `matchAdapter` / `pathPart` work on the code points as given). -/
+theorem match_prelude_pinned :
+    Gen.RoutingGlue.matchPrelude =
+      ["self.map.update()",
+       "if path_info is None: path_info = self.path_info",
+       "if query_args is None: query_args = self.query_args or {}",
+       "method = (method or self.default_method).upper()",
+       "if websocket is None: websocket = self.websocket",
+       "domain_part = self.server_name",
+       "if not self.map.host_matching and self.subdomain is not None: domain_part = self.subdomain",
+       "path_part = f'/{path_info.lstrip('/')}' if path_info else ''"] := by
+  decide +kernel
+
 /-- **unquote_quote.** Percent-decoding (what a server does to the request path) undoes the quoting the
 builder applies to literal rule text and to string / path values — for every text: Unicode, spaces,
 `;?#%` and every other reserved character. -/
